@@ -331,3 +331,59 @@ def union_point(O, A, mA, MA, B):
         r = insert_entry_point(O, cur, lo, hi, new, "merge", "silence")
         cur, lo, hi = r["entries"], r["min"], r["max"]
     return {"class": "PointTier", "entries": cur, "min": lo, "max": hi}
+
+
+# --------------------------------------------------------------------------------- C14
+
+
+def _abs(O, x):
+    return x if O.sgn(x) >= 0 else x.neg()
+
+
+def _snap(O, t, refs, D):
+    """C14: 'moves a timestamp to the nearest timestamp of the reference tier if and only if it lies within
+    maxDifference of it, and otherwise leaves it untouched'."""
+    best = refs[0]
+    for x in refs[1:]:
+        if O.lt(_abs(O, x - t), _abs(O, best - t)):
+            best = x
+    return best if O.le(_abs(O, t - best), D) else t
+
+
+def dejitter(O, kind, ents, m, M, refs, D):
+    if not refs:
+        O.raise_("ValueError")
+    out = []
+    for x in ents:
+        if kind == "interval":
+            out.append((_snap(O, x[0], refs, D), _snap(O, x[1], refs, D), x[2]))
+        else:
+            out.append((_snap(O, x[0], refs, D), x[1]))
+    if kind == "interval":
+        # 'an adjustment that would collapse or cross intervals raises instead of returning an ill-formed tier'
+        for s, e, _ in out:
+            if O.ge(s, e):
+                O.raise_("TextgridStateError")
+        for x, y in zip(out, out[1:]):
+            if O.gt(x[1], y[0]):
+                O.raise_("TextgridStateError")
+    else:
+        out = sort_entries(O, out)
+    lo, hi = hull(O, m, M, out, kind)
+    return {"class": "IntervalTier" if kind == "interval" else "PointTier", "entries": out, "min": lo, "max": hi}
+
+
+def morph(O, A, m, M, T, selected):
+    """C14: morph gives each selected interval the duration of its counterpart in the target tier while preserving
+    labels, the gaps between consecutive intervals, the first start and the trailing gap to the end of the span."""
+    if len(A) != len(T):
+        O.raise_("SafeZipException")
+    out = []
+    prev_old_end = prev_new_end = None
+    for (s, e, l), (ts, te, _) in zip(A, T):
+        dur = (te - ts) if selected(l) else (e - s)
+        ns = s if prev_old_end is None else prev_new_end + (s - prev_old_end)  # gap preserved
+        out.append((ns, ns + dur, l))
+        prev_old_end, prev_new_end = e, ns + dur
+    newmax = prev_new_end + (M - prev_old_end)  # trailing gap preserved
+    return {"class": "IntervalTier", "entries": out, "min": m, "max": newmax}
